@@ -282,7 +282,12 @@ def rule_cd(model, rep):
     # set_backend: state written in order (function installed by loader before __backend names it)
     sb = model.func(UH, "BackendMixin.set_backend")
     w = [n for n in ast.walk(sb) if isinstance(n, ast.With) and any(ast.unparse(i.context_expr) == "_backend_lock" for i in n.items)]
-    if len(w) != 1:
+    cond = [n for n in ast.walk(sb) if isinstance(n, ast.With) and any("_backend_lock" in ast.unparse(i.context_expr) and ast.unparse(i.context_expr) != "_backend_lock" for i in n.items)]
+    if cond:
+        rep.violation(RC, site(UH, "BackendMixin.set_backend"), f"with {ast.unparse(cond[0].items[0].context_expr)}:  # the lock is taken on some calls only",
+                      "every call that runs a backend loader holds _backend_lock: loaders write the shared pending / backend state, also when they only probe (dryrun)",
+                      witness="schedule: T1 bcrypt.has_backend('os_crypt') (a dry-run probe without the lock) overlaps T2's first hash(): T2 raises AssertionError 'failed to replace lazy loader' and the hasher stays broken")
+    elif len(w) != 1:
         rep.undecided(RC, site(UH, "BackendMixin.set_backend"), "locked region not found")
     else:
         order = [ast.unparse(st)[:40] for st in _linear(w[0].body) if not isinstance(st, (ast.With, ast.If))]
